@@ -111,6 +111,11 @@ func (s *ModelServer) ListModes(_ context.Context, request *traits.ListModesRequ
 	pageSize := capPageSize(int(request.GetPageSize()))
 
 	sortedModes := s.model.Modes()
+	// The collection lists by the id an item is stored under; with a resource.WithIDInterceptor that is not the
+	// order of the Id field the page token is searched by: establish the order the search below relies on.
+	sort.Slice(sortedModes, func(i, j int) bool {
+		return sortedModes[i].Id < sortedModes[j].Id
+	})
 	nextIndex := 0
 	if lastKey != "" {
 		nextIndex = sort.Search(len(sortedModes), func(i int) bool {
